@@ -1,0 +1,17 @@
+//go:build verif
+
+// Contracts for the govc verifier (/verif). This file contains comments only; it is compiled
+// only under the build tag "verif" and contributes no declarations.
+package group_create
+
+// ---------------------------------------------------------------------------------------------
+// Registry of the members' public signature shares of the groups this node belongs to (C15): memberPK is
+// the registered share; the lookup is trusted to return it (storage and network side effects of a miss
+// do not touch the share sets of a signing round).
+
+//@ spec abstract fn memberPK(gid groupsig.ID, id groupsig.ID) groupsig.Pubkey
+
+//@ func groupCreateProcessor.GetMemberSignPubKey
+//@   option trusted
+//@   ensures ok ==> pk == memberPK(groupId, minerId)
+//@   modifies nothing
